@@ -1,6 +1,6 @@
 (* run_case: decode a case, run the model, encode the result.  All semantics of the
    correspondence check live here (in Coq); the OCaml driver only parses and prints. *)
-From OHG Require Export Run.Sx.
+From OHG Require Export Run.Sx Model.UnionFind.
 
 Open Scope string_scope.
 
@@ -67,6 +67,8 @@ Definition tbl_array : list entry := [
   ("a_sort_by", a3 d_backend d_nats d_nats (fun B xs k => e_rnats (sort_by B xs k)));
   ("a_sparse_bincount", a2 d_backend d_nats (fun B xs => e_pair e_nats e_nats (b_sparse_bincount B xs)));
   ("a_cc", a4 d_backend d_nats d_nats d_nat (fun B s t n => e_res (e_pair e_nats N) (connected_components B s t n)));
+  (* the faithful union-find model of the Vec back-end (proved equal to cc_pure) *)
+  ("a_cc_uf", a3 d_nats d_nats d_nat (fun s t n => e_res (e_pair e_nats N) (uf_connected_components s t n)));
   (* the generic primitives at an opaque element type: same model function *)
   ("al_get", a2 d_nats d_nat (fun xs i => e_rnat (get xs i)));
   ("al_gather", a2 d_nats d_nats (fun xs ix => e_rnats (gather xs ix)));
